@@ -189,6 +189,22 @@ var vfTypes = map[string]*vfElemType{
 		}
 		return v
 	}},
+	// variable-length strings (global heap): pattern 1 short elements, pattern 2 a first
+	// element larger than a default heap collection, pattern 3 elements of 2000 bytes
+	"vstr": {Name: "vstr", DT: VLenString, Size: 16, Make: func(n, pat int) interface{} {
+		v := make([]string, n)
+		for i := range v {
+			switch {
+			case pat == 2 && i == 0:
+				v[i] = strings.Repeat("Q", 6000)
+			case pat == 3:
+				v[i] = strings.Repeat(string(rune('r'+i%4)), 2000)
+			default:
+				v[i] = fmt.Sprintf("v%d-%d", pat, i)
+			}
+		}
+		return v
+	}},
 	"str4": {Name: "str4", DT: String, Size: 4, Opts: []DatasetOption{WithStringSize(4)}, Make: func(n, pat int) interface{} {
 		v := make([]string, n)
 		for i := range v {
